@@ -192,6 +192,19 @@ def init_assignments(idx, cls, field):
     """unconditional top-level `self.<field> = expr` statements in the __init__ chain (most derived first)
     -> list of (class, stmt); conditional ones are returned with cond=True in a second list"""
     plain, cond = [], []
+    # property setters that store their argument in `field`: `self.<prop> = v` in __init__ is then a store to the field
+    via_setter = set()
+    for k in idx.mro(cls):
+        for mname, sfn in k.methods.items():
+            if not mname.endswith('#setter'):
+                continue
+            ps = [a_.arg for a_ in sfn.args.args]
+            if len(ps) != 2:
+                continue
+            for n in ast.walk(sfn):
+                if isinstance(n, ast.Assign) and len(n.targets) == 1 and is_self_attr(n.targets[0], field) \
+                        and isinstance(n.value, ast.Name) and n.value.id == ps[1]:
+                    via_setter.add(mname[:-len('#setter')])
     for k in idx.mro(cls):
         fn = k.methods.get('__init__')
         if fn is None:
@@ -203,7 +216,7 @@ def init_assignments(idx, cls, field):
                     tgt = sub.targets[0]
                 elif isinstance(sub, ast.AnnAssign) and sub.value is not None:
                     tgt = sub.target
-                if tgt is not None and is_self_attr(tgt, field):
+                if tgt is not None and (is_self_attr(tgt, field) or (is_self_attr(tgt) and tgt.attr in via_setter)):
                     (plain if sub is st else cond).append((k, sub))
     return plain, cond
 
@@ -1796,12 +1809,36 @@ def sign_instances(idx, cls, fn):
                 origin.setdefault(n.targets[0].id, set()).add(p)
     # flags set together with a prefix strip
     strip_flags = set()
+
+    def is_prefix_strip(e):
+        return isinstance(e, ast.Subscript) and isinstance(e.value, (ast.Name, ast.Attribute)) and isinstance(e.slice, ast.Slice) \
+            and e.slice.lower is not None and e.slice.upper is None
+    # locals that hold the text with its sign prefix stripped: v = t[len(p):], or unpacked from a same-class helper that returns
+    # (.., t[len(p):], ..)
+    stripped_locals = set()
+    for n in ast.walk(fn):
+        if isinstance(n, ast.Assign) and len(n.targets) == 1:
+            t, v = n.targets[0], n.value
+            if isinstance(t, ast.Name) and is_prefix_strip(v):
+                stripped_locals.add(t.id)
+            if isinstance(t, ast.Tuple) and isinstance(v, ast.Call) and isinstance(v.func, ast.Attribute) and is_self_attr(v.func):
+                _hk, hfn = idx.find_method(cls, v.func.attr)
+                if hfn is not None:
+                    for r in ast.walk(hfn):
+                        if isinstance(r, ast.Return) and isinstance(r.value, ast.Tuple) and len(r.value.elts) == len(t.elts):
+                            for tn, re_ in zip(t.elts, r.value.elts):
+                                if isinstance(tn, ast.Name) and is_prefix_strip(re_):
+                                    stripped_locals.add(tn.id)
     for n in ast.walk(fn):
         if isinstance(n, ast.If):
             sets = [s.targets[0].id for s in n.body if isinstance(s, ast.Assign) and isinstance(s.targets[0], ast.Name)
                     and isinstance(s.value, ast.Constant) and s.value.value is True]
-            strips = any(isinstance(s, ast.Assign) and isinstance(s.value, ast.Subscript) and isinstance(s.value.slice, ast.Slice)
-                         and s.value.slice.lower is not None and ast.unparse(s.targets[0]) == ast.unparse(s.value.value) for s in n.body)
+            if isinstance(n.test, ast.Name):
+                sets.append(n.test.id)       # `if flag: <strip>`: the flag itself guards the strip
+            strips = any(isinstance(s, ast.Assign) and len(s.targets) == 1 and (
+                (is_prefix_strip(s.value) and ast.unparse(s.targets[0]) == ast.unparse(s.value.value))
+                or (isinstance(s.value, ast.Name) and s.value.id in stripped_locals and isinstance(s.targets[0], (ast.Attribute, ast.Name))))
+                for s in n.body)
             if strips:
                 strip_flags.update(sets)
     out = []
@@ -2223,6 +2260,15 @@ class MiniInterp:
                     return (min if f.id == 'min' else max)(args)
                 if f.id == 'bool' and len(args) == 1:
                     return bool(args[0])
+                if f.id == 'sum' and 1 <= len(args) <= 2 and isinstance(args[0], (list, range)):
+                    total = args[1] if len(args) == 2 else 0
+                    for x in args[0]:
+                        total = self.binop(n, ast.Add(), total, x)
+                    return total
+                if f.id == 'abs' and len(args) == 1 and isinstance(args[0], int) and not isinstance(args[0], bool):
+                    return abs(args[0])
+                if f.id in ('any', 'all') and len(args) == 1 and isinstance(args[0], (list, range, str)):
+                    return (any if f.id == 'any' else all)(bool(x) for x in args[0])
             except (TypeError, ValueError):
                 self.fail(n, 'error evaluating ' + ast.unparse(n)[:60])
             self.fail(n, 'call ' + ast.unparse(n)[:60])
